@@ -1073,6 +1073,223 @@ theorem shortLines_entry (body : Bytes) (u : Url) (hb : shortLines body) (hnl : 
   omega
 
 
+/-! ### completeness: a body that parses is accepted by `parse_async` under every chunking -/
+
+/-- In a `J` state with bytes still unread, an iteration that returns does so with a parser error
+    of a complete line — an error that every extension of the input has as well. -/
+theorem step_J_unread (input : Bytes)
+    (s : LoopSt) (hJ : J MAX_BUFFER_CAPACITY input Lsym {} s) (hun : s.unread ≠ [])
+    (out : LoopOut) (sf : LoopSt) (h : Stream.step MAX_BUFFER_CAPACITY symOps s = .inr (out, sf)) :
+    ∀ ext, specOut Lsym symOps.lines {} (input ++ ext) = out := by
+  obtain ⟨hinv, hnr, hnj, hnoNL, ⟨ls0, hls0, hcb0, hfold0⟩, hfully, htried, _⟩ := hJ
+  obtain ⟨f_cb, f_ps, f_fc, f_tg, f_ir, f_jf, f_tc, f_cap, f_un⟩ := readBlock_facts s
+  obtain ⟨hm2, hd2, hz2⟩ := readBlock_mid MAX_BUFFER_CAPACITY input s hinv.toMid
+  have hstep : Stream.step MAX_BUFFER_CAPACITY symOps s =
+      if (readBlock s).2.length = 0 then
+        zeroBlock MAX_BUFFER_CAPACITY symOps (decide (s.buf.availableSpace > 0)) (readBlock s).1
+      else parseBlock symOps { (readBlock s).1 with triedToGrow := false } := by
+    unfold Stream.step; simp only [hnr, Bool.false_eq_true, if_false]
+  rw [hstep] at h
+  by_cases hz : (readBlock s).2.length = 0
+  · -- a zero-length read with bytes unread: the buffer is full, the loop grows it and goes on
+    exfalso
+    rw [if_pos hz] at h
+    have hnil : (readBlock s).2 = [] := List.eq_nil_of_length_eq_zero hz
+    rw [hnil, List.nil_append] at f_un
+    rw [hnil, List.append_nil] at hd2
+    have hsp : s.buf.availableSpace = 0 := by
+      rcases hz2 hz with h0 | h0
+      · exact h0
+      · rw [f_un] at h0; exact absurd h0 hun
+    have hnf : s.fullyConsumed = false := by
+      cases hfc : s.fullyConsumed with
+      | false => rfl
+      | true =>
+        exfalso
+        have hd := (hfully.mp hfc).1
+        have hb := hinv.buf
+        simp only [Buf.availableSpace, Buf.end_, hd, List.length_nil, Nat.add_zero] at hsp
+        have h1 := hb.half; have h2 := hb.capPos
+        omega
+    have hnt : s.triedToGrow = false := by
+      cases ht : s.triedToGrow with
+      | false => rfl
+      | true => have := htried ht; omega
+    unfold zeroBlock at h
+    simp only [f_jf, hnj, Bool.false_and, Bool.false_eq_true, if_false, f_fc, hnf, f_tg, hnt,
+      Bool.not_false, Bool.true_and] at h
+    have : (!decide (s.buf.availableSpace > 0)) = true := by simp [hsp]
+    rw [if_pos this] at h
+    split at h <;> cases h
+  · rw [if_neg hz] at h
+    -- the parser ran on the window and failed on one of its complete lines
+    have hpm : symOps.parseMore (readBlock s).1.ps (readBlock s).1.buf.data =
+        pmSpec Lsym s.ps (readBlock s).1.buf.data := by
+      rw [f_ps]; exact parseMore_eq _ _
+    have hlines := linesOf_isLine (readBlock s).1.buf.data
+    have hsplit := hinv.split
+    intro ext
+    -- the input, split into the lines consumed so far, the lines of the window, and the rest
+    have hinput : input ++ ext = ls0.flatten ++ ((linesOf (readBlock s).1.buf.data).1.flatten ++
+        ((linesOf (readBlock s).1.buf.data).2 ++ ((readBlock s).1.unread ++ ext))) := by
+      rw [← hsplit, hcb0, ← f_un]
+      have := linesOf_flatten (readBlock s).1.buf.data
+      rw [hd2] at this ⊢
+      simp only [List.append_assoc]
+      rw [← List.append_assoc ((linesOf (s.buf.data ++ (readBlock s).2)).1.flatten), this]
+      simp only [List.append_assoc]
+    unfold parseBlock at h
+    rw [if_neg (by show ¬ ((readBlock s).1.inRecovery = true); rw [f_ir, hnr]; simp)] at h
+    dsimp only at h
+    rw [hpm] at h
+    unfold pmSpec at h
+    unfold specOut
+    rw [hinput, specRest_append Lsym symOps.lines {} s.ps false ls0 hls0 _ hfold0]
+    cases hf : foldL Lsym s.ps (linesOf (readBlock s).1.buf.data).1 with
+    | err k n =>
+      rw [hf] at h
+      have : out = .err k n := by cases h; rfl
+      rw [this]
+      exact specRest_err Lsym symOps.lines s.ps _ _ hlines _ k n hf
+    | panic e =>
+      rw [hf] at h
+      have : out = .panic e := by cases h; rfl
+      rw [this]
+      exact specRest_panic Lsym symOps.lines s.ps _ _ hlines _ e hf
+    | ok st' =>
+      exfalso
+      rw [hf] at h
+      dsimp only at h
+      split at h
+      · next hgt =>
+        have hwl : (readBlock s).1.buf.data.length =
+            (linesOf (readBlock s).1.buf.data).1.flatten.length + (linesOf (readBlock s).1.buf.data).2.length := by
+          rw [← List.length_append, linesOf_flatten]
+        omega
+      · cases h
+
+theorem pump_J_complete (input : Bytes) (hshort : ShortLines (MAX_BUFFER_CAPACITY / 2) input) :
+    ∀ (fuel : Nat) (s1 : LoopSt), J MAX_BUFFER_CAPACITY input Lsym {} s1 → s1.unread ≠ [] →
+      Stream.measure s1 < fuel →
+      (∃ s', pump fuel s1 = .await s') ∨
+      (∃ out sf, pump fuel s1 = .returned out sf ∧ ∀ ext, specOut Lsym symOps.lines {} (input ++ ext) = out) := by
+  intro fuel
+  induction fuel with
+  | zero => intro s1 _ _ h; omega
+  | succ n ih =>
+    intro s1 hJ hun hm
+    unfold pump
+    rw [afterFetch_eq_step false s1 (Or.inr hun) hJ.notRec]
+    cases hs : Stream.step MAX_BUFFER_CAPACITY symOps s1 with
+    | inr r =>
+      obtain ⟨out, sf⟩ := r
+      exact Or.inr ⟨out, sf, rfl, step_J_unread input s1 hJ hun out sf hs⟩
+    | inl s2 =>
+      dsimp only
+      have hJ2 : J MAX_BUFFER_CAPACITY input Lsym {} s2 := by
+        rcases step_J MAX_BUFFER_CAPACITY input symOps Lsym {} parseMore_eq (by decide) hshort s1 hJ with
+          ⟨sf, h1⟩ | ⟨s2', h1, hJ2, _⟩
+        · rw [hs] at h1; cases h1
+        · rw [hs] at h1; cases h1; exact hJ2
+      rw [recover_of_notRec s2 hJ2.notRec]
+      have hlt := step_measure MAX_BUFFER_CAPACITY symOps s1 s2 hs
+      split
+      · exact Or.inl ⟨s2, rfl⟩
+      · next he => exact ih s2 hJ2 (by intro e; rw [e] at he; simp at he) (by omega)
+
+theorem drain_J_complete (input : Bytes) (hshort : ShortLines (MAX_BUFFER_CAPACITY / 2) input) :
+    ∀ (fuel : Nat) (s1 : LoopSt), J MAX_BUFFER_CAPACITY input Lsym {} s1 → Stream.measure s1 < fuel →
+      ∃ sf, drain fuel s1 = some (specOut Lsym symOps.lines {} input, sf) := by
+  intro fuel
+  induction fuel with
+  | zero => intro s1 _ h; omega
+  | succ n ih =>
+    intro s1 hJ hm
+    unfold drain
+    rw [afterFetch_eq_step true s1 (Or.inl rfl) hJ.notRec]
+    rcases step_J MAX_BUFFER_CAPACITY input symOps Lsym {} parseMore_eq (by decide) hshort s1 hJ with
+      ⟨sf, h1⟩ | ⟨s2, h1, hJ2, _⟩
+    · rw [h1]
+      exact ⟨sf, by rw [J_spec input s1 hJ]⟩
+    · rw [h1]
+      dsimp only
+      rw [recover_of_notRec s2 hJ2.notRec]
+      have hlt := step_measure MAX_BUFFER_CAPACITY symOps s1 s2 h1
+      exact ih s2 hJ2 (by omega)
+
+/-- every chunk of a response whose body (possibly continued by `fut`) parses is taken in: the
+    loop awaits the next chunk after each -/
+theorem runRev_complete : ∀ (rx : List Bytes) (fut : Bytes),
+    ShortLines (MAX_BUFFER_CAPACITY / 2) (bodyOf rx ++ fut) →
+    (∃ ps, specOut Lsym symOps.lines {} (bodyOf rx ++ fut) = .ok ps) →
+    ∃ s cb, model.runRev rx = some (s, cb) := by
+  intro rx
+  induction rx with
+  | nil => intro _ _ _; exact ⟨_, _, rfl⟩
+  | cons b older ih =>
+    intro fut hshort hok
+    have e : bodyOf (b :: older) ++ fut = bodyOf older ++ (b ++ fut) := by simp [bodyOf]
+    obtain ⟨s0, cb0, h0⟩ := ih (b ++ fut) (e ▸ hshort) (e ▸ hok)
+    have hsh : ShortLines (MAX_BUFFER_CAPACITY / 2) (bodyOf (b :: older)) := ShortLines.prefix hshort
+    obtain ⟨hJ0, hu0⟩ := runRev_J older s0 cb0 (ShortLines.prefix (b := b) hsh) h0
+    simp only [ParserModel.runRev, h0]
+    by_cases hb : b.isEmpty = true
+    · have : model.feed s0 b = some (s0, []) := by
+        show feed s0 b = _
+        unfold feed; rw [if_pos hb]; rfl
+      rw [this]; exact ⟨_, _, rfl⟩
+    · have hbne : b ≠ [] := fun e => hb (by simp [e])
+      have hJ1 := J_extend (bodyOf older) b s0 hJ0 hu0
+      have hm : Stream.measure ({ s0 with unread := b } : LoopSt) < feedFuel s0 b := by
+        have := flagsM_le ({ s0 with unread := b } : LoopSt)
+        unfold Stream.measure feedFuel
+        show 8 * b.length + 4 * s0.buf.data.length + flagsM ({ s0 with unread := b } : LoopSt) < _
+        omega
+      rcases pump_J_complete (bodyOf older ++ b) hsh _ _ hJ1 hbne hm with ⟨s', hp⟩ | ⟨out, sf, hp, hext⟩
+      · have : model.feed s0 b = some (s', newCb s0 s') := by
+          show feed s0 b = _
+          unfold feed; rw [if_neg hb, hp]
+        rw [this]; exact ⟨_, _, rfl⟩
+      · -- `parse_async` returned in the middle of the response: the whole body would not parse either
+        exfalso
+        obtain ⟨ps, hps⟩ := hok
+        have h1 := hext fut
+        have h2 : bodyOf (b :: older) = bodyOf older ++ b := rfl
+        rw [← h2, hps] at h1
+        obtain ⟨k, l, hk⟩ := pump_returned (bodyOf older ++ b) _ _ out sf
+          (post_extend (bodyOf older) b s0 ⟨hJ0.inv.toMid, fun hf => hJ0.inv.fully hf hJ0.notRec⟩ hu0)
+          (runRev_susp older s0 cb0 h0).safe hbne hp
+        rw [hk] at h1
+        cases h1
+
+/-- **completeness of the download** (the converse of `chunk_independent_real`): on C10's domain, if
+    `SymbolFile::from_bytes` accepts the body, then `parse_async` accepts it under EVERY chunking of
+    the response, with the same table, having handed exactly the body to the tee callback -/
+theorem stream_complete (rx : List Bytes) (t : Sym.SymbolFile) (hshort : shortLines (bodyOf rx))
+    (hp : model.parse (bodyOf rx) = some t) : model.stream rx = some (bodyOf rx, t) := by
+  have hshort' : ShortLines (MAX_BUFFER_CAPACITY / 2) (bodyOf rx) := hshort
+  obtain ⟨ps, hspec, hfin⟩ := (parse_some_spec (bodyOf rx) t hshort').mp hp
+  obtain ⟨s, cb, hr⟩ := runRev_complete rx [] (by simpa using hshort') ⟨ps, by simpa using hspec⟩
+  obtain ⟨hJ, hu⟩ := runRev_J rx s cb hshort' hr
+  have hm : Stream.measure s < finishFuel s := by
+    have := flagsM_le s
+    unfold Stream.measure finishFuel
+    rw [hu]; simp only [List.length_nil]; omega
+  obtain ⟨sf, hd⟩ := drain_J_complete (bodyOf rx) hshort' _ s hJ hm
+  rw [hspec] at hd
+  have hfinish : model.finish s = some (newCb s sf, t) := by
+    show finish s = _
+    unfold finish
+    rw [hd]
+    simp only [hfin]
+  have hbody := (callback_prefix_real rx s cb hr).2 _ _ hfinish
+  unfold ParserModel.stream
+  rw [hr]
+  simp only [hfinish]
+  rw [hbody]
+  rfl
+
+
 /-- **the three laws hold for the real parser model** — no assumption left about the parser -/
 theorem laws : ParserLaws model :=
   { callback_prefix := callback_prefix_real
